@@ -34,6 +34,8 @@ def mc_cfg(ctx, base, depth):
 
 def run(ctx):
     ctx.build("h-programs", "c18")
+    if ctx.replay_file:
+        ctx.note("replay: the recorded case lies inside the finite domain of this check, which is re-executed as a whole")
     depth = 4 if ctx.quick else 6
     acts = {"enable", "disable", "grant", "revoke", "restart", "update"}
     total_paths = 0
